@@ -573,3 +573,33 @@ mutant("rlm-op-assign-under-list-lock",
        [(B, "                    let mut lhs_val = lock_list(&items)[n as usize].clone();\n\n                    binary_operation_assign(&mut lhs_val, rhs, op)\n                        .context(BinOpAssignListIndexFailed)?;",
             "                    let mut guard = lock_list(&items);\n                    let mut lhs_val = guard[n as usize].clone();\n\n                    binary_operation_assign(&mut lhs_val, rhs, op)\n                        .context(BinOpAssignListIndexFailed)?;\n                    guard[n as usize] = lhs_val.clone();")],
        [("C02", "R02.1")], base=RLM, note="lockmacro refactor + guard from a locking helper held across the operator")
+
+RMS = "refactors/modsplit/patch.diff"
+mutant("rms-div-wrapping",
+       [("src/eval/ops.rs", "                            if let Some(v) = a.checked_div(*b) {", "                            if let Some(v) = Some(a.wrapping_div(*b)) {")],
+       [("C06", "R06.1")], base=RMS, note="eval split into submodules + wrapping division")
+mutant("rms-lookup-null-on-miss",
+       [("src/eval/expr.rs", "                    None => return new_loc_err(\n                        Error::Undefined{name: name.clone()},\n                    ),", "                    None => return Ok(value::new_null()),")],
+       [("C20", "R20.4")], base=RMS, note="eval split into submodules + undefined variable reads as null")
+
+RLS = "refactors/lexsplit/patch.diff"
+mutant("rls-le-as-lt",
+       [("src/lexer/symbols.rs", "        ('<', '=') => Some(Token::LessThanEquals),", "        ('<', '=') => Some(Token::LessThan),")],
+       [("C08", "R08.3")], base=RLS, note="lexer split into submodules (Token moved to lexer::token) + `<=` lexed as `<`")
+mutant("rls-drop-continuation",
+       [(L, "                    Token::Mod |\n", "")],
+       [("C09", "R09.1")], base=RLS, note="lexer split + `%` no longer continues a statement")
+
+RID = "refactors/idioms/patch.diff"
+mutant("rid-sequence-forwards-only-return",
+       [(E, "        if !matches!(v, Escape::None) {", "        if matches!(v, Escape::Return{..}) {")],
+       [("C07", "R07.3")], base=RID, note="idioms refactor + a statement sequence forwards only `return`")
+mutant("rid-refne-polarity",
+       [(E, "                        if matches!(op, BinaryOp::RefEq) { v } else { !v },", "                        if matches!(op, BinaryOp::RefEq) { !v } else { v },")],
+       [("C10", "R10.3")], base=RID, note="idioms refactor + inverted polarity inside the map closure")
+mutant("rid-add-wrapping",
+       [(E, "                    a.checked_add(*b)\n                        .map(Value::Int)", "                    Some(a.wrapping_add(*b))\n                        .map(Value::Int)")],
+       [("C06", "R06.1")], base=RID, note="idioms refactor + wrapping addition in the combinator chain")
+mutant("rid-overflow-saturates",
+       [(E, "                    a.checked_add(*b)\n                        .map(Value::Int)\n                        .ok_or_else(|| new_int_overflow(a, b))", "                    Ok(a.checked_add(*b)\n                        .map(Value::Int)\n                        .unwrap_or(Value::Int(i64::MAX)))")],
+       [("C06", "R06.1")], base=RID, note="idioms refactor + overflow saturates via unwrap_or")
